@@ -33,6 +33,7 @@ RAC = {
     'wasm_api': dict(crate='harper-wasm', attach='harper-wasm/src/lib.rs', file='wasm_api.rs', test='rac_wasm_api', function='harper_wasm::Linter::{lint, apply_suggestion, ignore_lint, export/import_ignored_lints, import/export_words, set_lint_config_from_json}, to_title_case, to_json/from_json'),
     'mask_merge': dict(crate=CORE, attach=S + 'mask/mod.rs', file='mask.rs', test='rac_mask_merge', function='Mask::merge_whitespace_sep'),
     'prose_offsets': dict(crate='harper-comments', attach='harper-comments/src/comment_parser.rs', file='prose_offsets.rs', test='rac_prose_offsets', function='CommentParser::parse (tree-sitter mask + comment parsers) and Markdown::parse: prose words at their true offsets'),
+    'lhs_prose_offsets': dict(crate='harper-literate-haskell', attach='harper-literate-haskell/src/lib.rs', file='lhs.rs', test='rac_lhs_prose_offsets', function='LiterateHaskellParser (masker + parsers::Mask::parse + Markdown): prose words at their true offsets'),
     'typst_frontend': dict(crate='harper-typst', attach='harper-typst/src/lib.rs', file='typst.rs', test='rac_typst_frontend', function='Typst parser (typst_translator, offset_cursor)'),
 }
 # Verus piece name -> runtime contract checks that exercise the same clause on the real code
